@@ -78,6 +78,7 @@ Section Family.
     match os with
     | [] => []
     | OIntr :: _ => []
+    | OLate :: _ => [EStart (mk i)]
     | OOk :: rest => start_log (S i) rest ++ [EStart (mk i)]
     | ODies :: rest => start_log (S i) rest ++ [EDied (mk i); EStart (mk i)]
     | _ :: rest => start_log (S i) rest
@@ -95,8 +96,9 @@ Section Family.
     revert i. induction os as [|o os IH]; intros i; cbn; [tauto|].
     destruct o; cbn; try (intros H; destruct (IH _ H) as (j & -> & Hj); exists j; split; [reflexivity|lia]);
       try tauto.
-    intros [<-|H]; [exists i; split; [reflexivity|lia]|].
-    destruct (IH _ H) as (j & -> & Hj). exists j. split; [reflexivity|lia].
+    - intros [<-|H]; [exists i; split; [reflexivity|lia]|].
+      destruct (IH _ H) as (j & -> & Hj). exists j. split; [reflexivity|lia].
+    - intros [<-|[]]. exists i. split; [reflexivity|lia].
   Qed.
 
   Definition fresh_from (i : nat) (l : list cls) : Prop :=
@@ -134,6 +136,8 @@ Section Family.
         now rewrite <- !app_assoc.
       + (* OIntr *)
         unfold bind, actor_error_handling, raise. cbn. now rewrite app_nil_r.
+      + (* OLate: registered, then the interrupt *)
+        unfold bind, actor_error_handling, register, raise. cbn. reflexivity.
   Qed.
 
   (* stop loop: what it stops and what it leaves *)
@@ -207,6 +211,16 @@ Section Family.
       + (* OIntr: nothing of the family is registered *)
         cbn [app]. destruct (hits_foreign (S (length os)) i (pre ++ post) Hpp) as [H1 H2].
         cbn [hits rest] in H1, H2. rewrite H1, H2. auto.
+      + (* OLate: only mk i is registered *)
+        assert (Hf1 : filter (cls_eqb (mk i)) (pre ++ [mk i] ++ post) = [mk i]).
+        { rewrite !filter_app. cbn. rewrite cls_eqb_refl.
+          rewrite (filter_none _ pre) by (intros d Hd; apply Hpre; assumption).
+          rewrite (filter_none _ post) by (intros d Hd; apply Hpost; assumption). reflexivity. }
+        assert (Hf2 : filter (fun d => negb (cls_eqb (mk i) d)) (pre ++ [mk i] ++ post) = pre ++ post).
+        { rewrite !filter_app. cbn. rewrite cls_eqb_refl. cbn.
+          rewrite (filter_all _ pre) by (intros d Hd; now rewrite (Hpre d Hd i)).
+          rewrite (filter_all _ post) by (intros d Hd; now rewrite (Hpost d Hd i)). reflexivity. }
+        rewrite Hf1, Hf2. destruct (hits_foreign (length os) (S i) (pre ++ post) Hpp) as [-> ->]. auto.
   Qed.
 End Family.
 
@@ -248,13 +262,15 @@ Definition tail (obs : list outcome) (oc : outcome) (ofs : list outcome) (ol : l
 
 Definition tail_core (obs : list outcome) (oc : outcome) : bool :=
   negb (existsb is_intr obs) && is_ok oc.
+Definition tail_run (obs : list outcome) (oc : outcome) : bool :=
+  negb (existsb is_intr obs) && is_up oc.
 
 Lemma tail_spec obs oc ofs ol s :
   (forall d, In d (reg s) -> d = CMixer \/ d = CAudio) ->
   exists r l',
     tail obs oc ofs ol s =
     (r, mkSt (reg s ++ alive_from CBackend 0 obs
-                    ++ (if tail_core obs oc then [CCore] else [])
+                    ++ (if tail_run obs oc then [CCore] else [])
                     ++ (if tail_core obs oc then alive_from CFrontend 0 ofs else []))
              (l' ++ log s) (v_core s || tail_core obs oc)) /\
     forallb quiet_ev l' = true /\
@@ -269,7 +285,7 @@ Proof.
   destruct s as [r0 l0 v0]. cbn [reg log v_core] in *.
   unfold tail, start_backends. unfold bind at 1.
   rewrite (start_each_spec CBackend backend_eqb) by exact Hfb. cbn [reg log v_core].
-  unfold tail_core.
+  unfold tail_core, tail_run.
   destruct (existsb is_intr obs) eqn:Hib; cbn [negb andb].
   - exists (Exc XKbd), (start_log CBackend 0 obs). rewrite !app_nil_r, orb_false_r.
     repeat split. apply start_log_quiet.
@@ -314,6 +330,11 @@ Proof.
       split; [reflexivity|]. split; [cbn; exact Hq|reflexivity].
     + exists (Exc XKbd), (start_log CBackend 0 obs).
       unfold start_core, bind. cbn. rewrite !app_nil_r, orb_false_r. auto.
+    + (* the core is running but run() is interrupted before start_core returns *)
+      exists (Exc XKbd), (EStart CCore :: start_log CBackend 0 obs).
+      unfold start_core, bind. cbn -[alive_from start_log].
+      rewrite orb_false_r, <- app_assoc.
+      split; [reflexivity|]. split; [cbn; exact Hq|reflexivity].
 Qed.
 
 Lemma try_body_tail o :
@@ -333,7 +354,7 @@ Lemma try_body_spec o :
 Proof.
   rewrite try_body_tail. destruct o as [hm om oa early obs oc ofs ol orst].
   cbn [o_has_mixer o_mixer o_audio o_audio_early o_backends o_core o_frontends o_loop o_restore].
-  unfold mixer_alive, audio_alive, backends_alive, core_alive, frontends_alive, core_started,
+  unfold mixer_alive, audio_alive, backends_alive, core_alive, frontends_alive, core_started, core_running,
     reaches_core, expected_status, audio_escapes.
   cbn [o_has_mixer o_mixer o_audio o_audio_early o_backends o_core o_frontends o_loop o_restore].
   destruct hm, om, oa, early;
@@ -347,7 +368,7 @@ Proof.
           by (cbn; intros d Hd; repeat destruct Hd as [<-|Hd]; tauto);
         destruct (tail_spec obs oc ofs ol s0 H) as (r & l' & Heq & Hq & Hst);
         rewrite Heq; clear Heq H;
-        unfold tail_core in *; cbn -[alive_from existsb] in *;
+        unfold tail_core, tail_run in *; cbn -[alive_from existsb] in *;
         exists r; eexists; split; [|split; [|exact Hst]]
     end.
   all: try (rewrite ?andb_true_r; reflexivity).
@@ -381,12 +402,14 @@ Lemma finally_generic o Mx A B C F l cs :
   (B = [] \/ B = alive_from CBackend 0 (o_backends o)) ->
   (C = [] \/ C = [CCore]) ->
   (F = [] \/ F = alive_from CFrontend 0 (o_frontends o)) ->
+  (cs = true -> C = [CCore]) ->
   finally_block o (mkSt (Mx ++ A ++ B ++ C ++ F) l cs) =
   (Val tt,
    mkSt [] (rev (map EStop (B ++ A ++ Mx)) ++ rev (map EStop C)
-                ++ (if cs && o_restore o then [ESave] else []) ++ rev (map EStop F) ++ l) cs).
+                ++ (if existsb (cls_eqb CCore) C && o_restore o then [ESave] else [])
+                ++ rev (map EStop F) ++ l) cs).
 Proof.
-  intros HM HA HB HC HF.
+  intros HM HA HB HC HF Hcs.
   assert (HBb : forall d, In d B -> is_backend d = true).
   { intros d Hd. destruct HB as [->| ->]; [destruct Hd|]. eapply alive_backend; eassumption. }
   assert (HFf : forall d, In d F -> is_frontend d = true).
@@ -425,7 +448,21 @@ Proof.
                              stop_by_class CCore s0 =
                              (Val tt, mkSt (Mx ++ A ++ B) (rev (map EStop C) ++ log s0) (v_core s0))).
   { intros s0 Hr. unfold stop_by_class. rewrite Hr. destruct H2 as [-> ->]. reflexivity. }
-  destruct (cs && o_restore o) eqn:Hsave; cbn [emit ret reg log v_core];
+  assert (Hex : (cs || existsb (cls_eqb CCore) (Mx ++ A ++ B ++ C)) = existsb (cls_eqb CCore) C).
+  { rewrite !existsb_app.
+    assert (E1 : existsb (cls_eqb CCore) Mx = false).
+    { destruct (existsb (cls_eqb CCore) Mx) eqn:E; [|reflexivity].
+      apply existsb_exists in E as (d & Hd & He). now rewrite (HMm d Hd) in He. }
+    assert (E2 : existsb (cls_eqb CCore) A = false).
+    { destruct (existsb (cls_eqb CCore) A) eqn:E; [|reflexivity].
+      apply existsb_exists in E as (d & Hd & He). now rewrite (HAa d Hd) in He. }
+    assert (E3 : existsb (cls_eqb CCore) B = false).
+    { destruct (existsb (cls_eqb CCore) B) eqn:E; [|reflexivity].
+      apply existsb_exists in E as (d & Hd & He). specialize (HBb d Hd). destruct d; cbn in *; congruence. }
+    rewrite E1, E2, E3. cbn [orb].
+    destruct cs; [rewrite (Hcs eq_refl); reflexivity|reflexivity]. }
+  cbn [reg]. rewrite Hex.
+  destruct (existsb (cls_eqb CCore) C && o_restore o) eqn:Hsave; cbn [emit ret reg log v_core];
     rewrite Hcore by reflexivity; cbn [reg log v_core].
   all: unfold bind at 1; rewrite stop_each_spec; cbn [reg log v_core].
   all: assert (H3 : hits CBackend 0 (length (o_backends o)) (Mx ++ A ++ B) = B /\
@@ -446,7 +483,13 @@ Qed.
 (* ------------------------------------------------------------------------------------ *)
 (* closed form of the whole command                                                        *)
 
-Definition save_due (o : oracle) : bool := o_restore o && core_started o.
+Definition save_due (o : oracle) : bool := o_restore o && core_running o.
+
+Lemma core_started_running o : core_started o = true -> core_running o = true.
+Proof.
+  unfold core_started, core_running. intros H. apply andb_prop in H as [-> H2].
+  destruct (o_core o); try discriminate; reflexivity.
+Qed.
 
 Lemma run_closed_form_lemma o :
   exists s quietlog,
@@ -458,25 +501,28 @@ Lemma run_closed_form_lemma o :
                         ++ map EStop (core_alive o ++ backends_alive o ++ audio_alive o ++ mixer_alive o).
 Proof.
   destruct (try_body_spec o) as (r & l & Heq & Hq & Hst).
-  unfold run_command. rewrite Heq.
+  unfold run_command, run_with. rewrite Heq.
+  assert (Hex : existsb (cls_eqb CCore) (core_alive o) = core_running o).
+  { unfold core_alive. destruct (core_running o); reflexivity. }
   rewrite finally_generic.
   - exists (mkSt [] (rev (map EStop (backends_alive o ++ audio_alive o ++ mixer_alive o))
                      ++ rev (map EStop (core_alive o))
-                     ++ (if core_started o && o_restore o then [ESave] else [])
+                     ++ (if existsb (cls_eqb CCore) (core_alive o) && o_restore o then [ESave] else [])
                      ++ rev (map EStop (frontends_alive o)) ++ l) (core_started o)), (rev l).
     split; [|split; [reflexivity|split]].
     + f_equal. f_equal. exact Hst.
     + now rewrite forallb_rev.
     + unfold events, save_due. cbn [log]. rewrite !rev_app_distr, !rev_involutive, <- !app_assoc.
-      rewrite (andb_comm (o_restore o)).
+      rewrite (andb_comm (o_restore o)), Hex.
       f_equal. f_equal.
-      destruct (core_started o && o_restore o); cbn; rewrite !map_app, <- ?app_assoc; reflexivity.
+      destruct (core_running o && o_restore o); cbn; rewrite !map_app, <- ?app_assoc; reflexivity.
   - unfold mixer_alive. destruct (o_has_mixer o); cbn; [|now left].
-    destruct (is_ok (o_mixer o)); [right; auto|now left].
+    destruct (is_up (o_mixer o)); [right; auto|now left].
   - unfold audio_alive. destruct (_ && _); [now right|now left].
   - unfold backends_alive. destruct (_ && _); [now right|now left].
-  - unfold core_alive. destruct (core_started o); [now right|now left].
+  - unfold core_alive. destruct (core_running o); [now right|now left].
   - unfold frontends_alive. destruct (core_started o); [now right|now left].
+  - intros Hc. unfold core_alive. now rewrite (core_started_running o Hc).
 Qed.
 
 Lemma stops_of_quiet_prefix q l : forallb quiet_ev q = true -> stops_of (q ++ l) = stops_of l.
@@ -540,7 +586,7 @@ Proof.
   repeat split; intros x Hx; apply in_map_iff in Hx as (c & <- & Hc).
   - unfold frontends_alive in Hc. destruct (core_started o); [|destruct Hc].
     apply alive_frontend in Hc. destruct c; cbn in *; congruence.
-  - unfold core_alive in Hc. destruct (core_started o); [|destruct Hc]. destruct Hc as [<-|[]]. reflexivity.
+  - unfold core_alive in Hc. destruct (core_running o); [|destruct Hc]. destruct Hc as [<-|[]]. reflexivity.
   - unfold backends_alive in Hc. destruct (_ && _); [|destruct Hc].
     apply alive_backend in Hc. destruct c; cbn in *; congruence.
   - unfold audio_alive in Hc. destruct (_ && _); [|destruct Hc]. destruct Hc as [<-|[]]. reflexivity.
@@ -578,8 +624,8 @@ Qed.
 Theorem state_saved_once_lemma :
   forall o, exists z s before after,
       run_command o = (Val z, s) /\
-      saves_of (events s) = (if o_restore o && core_started o then 1 else 0) /\
-      (o_restore o && core_started o = true ->
+      saves_of (events s) = (if o_restore o && core_running o then 1 else 0) /\
+      (o_restore o && core_running o = true ->
        events s = before ++ ESave :: after /\
        stops_of before = frontends_alive o /\ saves_of before = 0 /\
        after = map EStop ([CCore] ++ backends_alive o ++ audio_alive o ++ mixer_alive o)).
@@ -620,6 +666,36 @@ Proof.
   intros o. destruct (run_stops_lemma o) as (s & Hrun & Hreg & Hst & Hrem & Hsv).
   exists (expected_status o), s. split; [assumption|].
   unfold monitor_core_b. rewrite Hreg, Hst, Hsv, expected_stops_ordered. unfold save_due. cbn [length].
-  destruct (o_restore o && core_started o); cbn;
+  destruct (o_restore o && core_running o); cbn;
     unfold expected_status; destruct (_ && _); reflexivity.
+Qed.
+
+(* ------------------------------------------------------------------------------------ *)
+(* the code before the fix (teardown only through the local variable `core`)              *)
+
+(* full-strength statement: the state is saved exactly once iff restore_state is on and a
+   core actor is running when the command shuts down *)
+Definition saved_iff_core_running (run : oracle -> res Z * st) : Prop :=
+  forall o, saves_of (events (snd (run o))) = (if o_restore o && core_running o then 1 else 0).
+
+Definition late_core_oracle : oracle :=
+  mkOracle true OOk OOk false [OOk] OLate [OOk] LQuit true.
+
+(* a KeyboardInterrupt reaching run() while it waits for Core._setup: the core actor runs
+   (and has consumed the state file), is stopped, but its state is never saved *)
+Lemma old_code_loses_state_lemma :
+  o_restore late_core_oracle = true /\ core_running late_core_oracle = true /\
+  In CCore (stops_of (events (snd (run_command_old late_core_oracle)))) /\
+  saves_of (events (snd (run_command_old late_core_oracle))) = 0.
+Proof. vm_compute. repeat split; auto. Qed.
+
+Lemma old_code_refuted_lemma : ~ saved_iff_core_running run_command_old.
+Proof.
+  intros H. specialize (H late_core_oracle). vm_compute in H. discriminate.
+Qed.
+
+Lemma new_code_saved_iff_core_running_lemma : saved_iff_core_running run_command.
+Proof.
+  intros o. destruct (run_stops_lemma o) as (s & Hrun & _ & _ & _ & Hsv).
+  rewrite Hrun. exact Hsv.
 Qed.
